@@ -341,7 +341,7 @@ class FnTags(object):
                             and not is_constant_key(t.slice):
                         # (a store under a constant key is a settings cell - `_TRACE[0] = bool(on)` - not a memo table)
                         self.memo_stores.append((s, t.value.id, t.slice, s.value, env.copy()))
-                elif isinstance(t, ast.Attribute) and not (isinstance(t.value, ast.Name) and t.value.id in ('self', 'cls')):
+                elif isinstance(t, ast.Attribute) and not _rooted_at_self(t.value):
                     # obj.attr = value changes obj in place (a keymap handed in by the caller whose `typed` flag is overwritten)
                     self.sites.append((s, unparse(t.value), self.tags(t.value, env)))
                 else:
@@ -569,6 +569,13 @@ def arg_names(expr, env, ft, depth=0):
     return out
 
 
+def _rooted_at_self(e):
+    """self, self.a, self.a.b ...: state of the object under construction / the method's own instance"""
+    while isinstance(e, ast.Attribute):
+        e = e.value
+    return isinstance(e, ast.Name) and e.id in ('self', 'cls')
+
+
 def param_mutations(results, private=()):
     """[(qualname, node, receiver source, param, via)] in-place mutations of caller-owned objects at the module's entry points: direct ones,
     plus calls that hand a caller-owned object to a function that (transitively) mutates that parameter.  `private` names module-level helper
@@ -604,12 +611,12 @@ def param_mutations(results, private=()):
                                     changed = True
     out = []
     for q, lst in direct.items():
-        if q.split('.')[0] in private:
+        if q.split('.')[0] in private or q in private:
             continue
         for node, recv, pname in lst:
             out.append((q, node, recv, pname, None))
     for q, ft in results.items():
-        if q.split('.')[0] in private:
+        if q.split('.')[0] in private or q in private:
             continue
         for node, callee, argtags in ft.calls:
             for i, tg in enumerate(argtags):
